@@ -172,6 +172,74 @@ Definition is_connected_fixed (N : nat) (nb : graph) : cres bool :=
   end.
 
 (* ------------------------------------------------------------------------------------
+   The stack-depth obligation.  The search of connected.hpp is ITERATIVE: one while loop
+   around an explicit std::stack<int> that lives on the heap; no function of connected.hpp
+   calls itself, so the call stack has constant depth whatever N is.  The model mirrors
+   that: dfs_loop only ever calls itself in tail position (every recursive call is the
+   whole result of its branch) and threads the explicit stack as an argument.
+
+   dfs_loop_hw is dfs_loop with one more accumulator and nothing else changed: `hw` is the
+   high-water mark of the explicit stack, sampled at the head of every iteration (every
+   push is followed by another loop head, so no stack length escapes the sampling).
+   Conn_Proof_Stack.v proves  fst (dfs_loop_hw ...) = dfs_loop ...  (erasure) and
+   hw <= total_len adj + 1  (= N*k + 1 <= N*(k+1)+1 for N lists of k entries): the memory
+   the search needs beyond `visited` is that many ints of HEAP, never call-stack frames.
+   A rewrite of the C++ search as plain recursion (call depth = DFS depth, up to N) leaves
+   every decision unchanged and breaks exactly this obligation; it is observed by the
+   check on path/cycle graphs with 10^6 samples under an 8 MiB stack limit and by a scan
+   of connected.hpp for functions that call themselves (checks/c03.py). *)
+Fixpoint dfs_loop_hw (sel : list nat -> cres (list nat)) (N : nat) (adj : graph)
+         (fuel : nat) (stack : list nat) (visited : list bool) (nvisited : nat) (hw : nat)
+  : cres bool * nat :=
+  match fuel with
+  | 0 => (CFuel, hw)
+  | S fuel' =>
+    let hw1 := Nat.max hw (length stack) in
+    match stack with
+    | [] => (COk (nvisited =? N), hw1)
+    | current :: stack' =>
+      match nth_error visited current with
+      | None => (COOB site_visited current (length visited), hw1)
+      | Some true => dfs_loop_hw sel N adj fuel' stack' visited nvisited hw1
+      | Some false =>
+        let visited' := set_nth visited current true in
+        let nvisited' := S nvisited in
+        if nvisited' =? N then (COk (nvisited' =? N), hw1)
+        else
+          match nth_error adj current with
+          | None => (COOB site_rows current (length adj), hw1)
+          | Some row =>
+            match sel row with
+            | COk cands =>
+              match push_unvisited visited' cands stack' with
+              | COk stack'' => dfs_loop_hw sel N adj fuel' stack'' visited' nvisited' hw1
+              | COOB s i z => (COOB s i z, hw1)
+              | CFuel => (CFuel, hw1)
+              end
+            | COOB s i z => (COOB s i z, hw1)
+            | CFuel => (CFuel, hw1)
+            end
+          end
+      end
+    end
+  end.
+
+Definition all_reachable_from_first_hw (N : nat) (adj : graph) : cres bool * nat :=
+  dfs_loop_hw sel_all N adj (total_len adj + 2) [0] (repeat false N) 0 0.
+
+(* both searches of is_connected; the second component is the larger of the two high-water marks *)
+Definition is_connected_fixed_hw (N : nat) (nb : graph) : cres bool * nat :=
+  match all_reachable_from_first_hw N nb with
+  | (COk true, h1) =>
+    match reverse_lists N nb with
+    | COk rev => let (r, h2) := all_reachable_from_first_hw N rev in (r, Nat.max h1 h2)
+    | COOB s i z => (COOB s i z, h1)
+    | CFuel => (CFuel, h1)
+    end
+  | (r, h1) => (r, h1)
+  end.
+
+(* ------------------------------------------------------------------------------------
    find_neighbors(method, begin, end, callback, k, check_connectivity):
      if (k > N-1) k = N-1;  neighbors = <search>(k);
      if (check_connectivity && !is_connected(neighbors)) return find_neighbors(..., 2*k, ...);
